@@ -47,7 +47,7 @@ Definition join_ts (part1 part2 : bytes) : bytes :=
     WalkDir-relative file names): not empty, no slash at either end *)
 Definition relb (s : bytes) : bool :=
   negb (is_nil s) && negb (head_is_slash s) && negb (last_is_slash s).
-(** a stored repository prefix is usable by prefix_offset (s3.rs:816-820) iff it does not end
+(** a stored repository prefix is usable by prefix_offset (s3.rs:832-836) iff it does not end
     with a slash; since commit 1405318 S3Client::new guarantees this (see [client_prefix]) *)
 Definition pfx_ok (p : bytes) : bool := negb (last_is_slash p).
 
@@ -62,10 +62,10 @@ Fixpoint trim_trailing_slashes (s : bytes) : bytes :=
               end
   end.
 
-(** the repository prefix S3Client::new stores, s3.rs:777:
+(** the repository prefix S3Client::new stores, s3.rs:793:
     [util::trim_trailing_slashes(prefix.unwrap_or_default())]; [raw] is the option value the
     caller gave ([None] = empty).  Everything below ([cprefix] arguments) works on the STORED
-    prefix, as the methods of S3Client do ([self.prefix], s3.rs:797,816-820,850,879,909,929,959,988).
+    prefix, as the methods of S3Client do ([self.prefix], s3.rs:813,832-836,866,895,925,945,975,1004).
     A leading slash is kept (nothing trims it): "/pre" stores keys "/pre/..." and lists
     "/pre/"; "/" alone becomes the empty prefix = the bucket root. *)
 Definition client_prefix (raw : bytes) : bytes := trim_trailing_slashes raw.
@@ -83,7 +83,7 @@ Definition head_is_boundary (s : bytes) : bool :=
 Definition slice_from (off : nat) (s : bytes) : res bytes :=
   if Nat.ltb (List.length s) off then Panic
   else let r := skipn off s in if head_is_boundary r then Ok r else Panic.
-(** [&p[off..p.len() - 1]] (s3.rs:830-832) *)
+(** [&p[off..p.len() - 1]] (s3.rs:846-848) *)
 Definition slice_dir (off : nat) (p : bytes) : res bytes :=
   match p with
   | [] => Panic                                   (* 0usize - 1 *)
@@ -103,7 +103,7 @@ Fixpoint upto_slash (s : bytes) : option bytes :=
   end.
 
 (** ListObjectsV2 on one key: not under the prefix / a key / rolled up into a common prefix
-    (delimiter "/" is the only one s3.rs uses: list_dir, s3.rs:785) *)
+    (delimiter "/" is the only one s3.rs uses: list_dir, s3.rs:801) *)
 Definition classify (prefix : bytes) (delim : bool) (key : bytes) : option entry :=
   if starts_with prefix key then
     if delim then
@@ -142,7 +142,7 @@ Definition serve (psize : nat) (ents : list entry) (tok : option nat) : page :=
 (* ------------------------------------------------------------------ S3Client::list_prefix *)
 
 Definition prefix_offset (cprefix : bytes) : nat :=
-  match cprefix with [] => O | _ => S (List.length cprefix) end.           (* s3.rs:816-820 *)
+  match cprefix with [] => O | _ => S (List.length cprefix) end.           (* s3.rs:832-836 *)
 
 Fixpoint map_res {A B} (f : A -> res B) (l : list A) : res (list B) :=
   match l with
@@ -159,7 +159,7 @@ Definition keys_of_entries (l : list entry) : list bytes :=
 Definition pres_of_entries (l : list entry) : list bytes :=
   flat_map (fun e => match e with EPre p => [p] | EKey _ => [] end) l.
 
-(** s3.rs:822-834 on one answer: contents, then common prefixes *)
+(** s3.rs:838-850 on one answer: contents, then common prefixes *)
 Definition process_page (off : nat) (ents : list entry) : res (list bytes * list bytes) :=
   match map_res (slice_from off) (keys_of_entries ents) with
   | Ok objs => match map_res (slice_dir off) (pres_of_entries ents) with
@@ -178,7 +178,7 @@ Definition res_app (acc : list bytes * list bytes) (r : res (list bytes * list b
   | Panic => Panic
   end.
 
-(** the loop of s3.rs:805-841; [None] = fuel exhausted (shown unreachable for psize >= 1) *)
+(** the loop of s3.rs:821-857; [None] = fuel exhausted (shown unreachable for psize >= 1) *)
 Fixpoint list_loop (fuel psize : nat) (ents : list entry) (off : nat) (tok : option nat)
          (acc : list bytes * list bytes) : option (res (list bytes * list bytes)) :=
   match fuel with
@@ -193,7 +193,7 @@ Fixpoint list_loop (fuel psize : nat) (ents : list entry) (off : nat) (tok : opt
       end
   end.
 
-Definition request_prefix (cprefix path : bytes) : bytes := join_ts cprefix path.   (* s3.rs:797 *)
+Definition request_prefix (cprefix path : bytes) : bytes := join_ts cprefix path.   (* s3.rs:813 *)
 
 Definition list_paged (psize : nat) (keys : list bytes) (cprefix path : bytes) (delim : bool)
   : option (res (list bytes * list bytes)) :=
@@ -215,7 +215,7 @@ Definition list_tokens (psize : nat) (keys : list bytes) (cprefix path : bytes) 
   let n := List.length (entries_of [] (request_prefix cprefix path) delim keys) in
   tokens_from (S n) psize O n.
 
-(** S3Storage::list, s3.rs:1220-1251 (kind: false = file, true = directory) *)
+(** S3Storage::list, s3.rs:1236-1267 (kind: false = file, true = directory) *)
 Definition storage_list (keys : list bytes) (cprefix path : bytes) (recursive : bool)
   : res (list (bool * bytes)) :=
   let plen := if is_nil path || last_is_slash path then List.length path else S (List.length path) in
@@ -234,13 +234,13 @@ Definition storage_list (keys : list bytes) (cprefix path : bytes) (recursive : 
   | Panic => Panic
   end.
 
-(** is_object_dir, s3.rs:1452-1459 *)
+(** is_object_dir, s3.rs:1468-1475 *)
 Definition is_object_dir (objects : list bytes) : bool :=
   existsb (fun o => ends_with K_OBJECT_NAMASTE_FILE_1_0 o || ends_with K_OBJECT_NAMASTE_FILE_1_1 o) objects.
 
 Definition extensions_dir_suffix : bytes := slash :: K_EXTENSIONS_DIR.       (* s3.rs:51 *)
 
-(** InventoryIter::next, s3.rs:1160-1202, run to exhaustion: the object roots found (in
+(** InventoryIter::next, s3.rs:1176-1218, run to exhaustion: the object roots found (in
     order) and the paths listed (in order).  [None] = fuel exhausted. *)
 Fixpoint scan (fuel : nat) (keys : list bytes) (cprefix : bytes)
          (current : option (list bytes)) (stack : list (list bytes))
@@ -290,7 +290,7 @@ Fixpoint flatten (t : tree) : list (list bytes * bytes) :=
 
 (** the keys under which the files of tree [t], rooted at storage path [at_path], are stored:
     one paths::join per directory level (upload_all_files_with_rollback joins the destination
-    with the WalkDir-relative name, put_object_file joins the repository prefix, s3.rs:296,959) *)
+    with the WalkDir-relative name, put_object_file joins the repository prefix, s3.rs:296,975) *)
 Fixpoint keys_under (at_path : bytes) (t : tree) : list (bytes * bytes) :=
   match t with
   | TFile c => [(at_path, c)]
@@ -372,7 +372,7 @@ Definition mreq (fa : option N) (r : req) (eff : bucket -> bucket) (s : st) : re
 
 Definition same (bk : bucket) : bucket := bk.
 
-(** number of upload_part requests: reads of PART_SIZE bytes until end of file, s3.rs:1026-1058 *)
+(** number of upload_part requests: reads of PART_SIZE bytes until end of file, s3.rs:1042-1074 *)
 Definition n_parts (len : N) : N := (len + K_S3_PART_SIZE - 1) / K_S3_PART_SIZE.
 
 Fixpoint mp_parts (fa : option N) (key : bytes) (i : N) (todo : nat) (s : st) : res unit * st :=
@@ -381,11 +381,11 @@ Fixpoint mp_parts (fa : option N) (key : bytes) (i : N) (todo : nat) (s : st) : 
   | S t =>
       match mreq fa (RMpPart key i) same s with
       | (Ok _, s1) => mp_parts fa key (i + 1) t s1
-      | (_, s1) => (Err, snd (mreq fa (RMpAbort key) same s1))         (* abort_multipart, s3.rs:1046-1049 *)
+      | (_, s1) => (Err, snd (mreq fa (RMpAbort key) same s1))         (* abort_multipart, s3.rs:1062-1065 *)
       end
   end.
 
-(** multipart_put_file, s3.rs:981-1075: a failed create or complete is returned as is (no abort) *)
+(** multipart_put_file, s3.rs:997-1091: a failed create or complete is returned as is (no abort) *)
 Definition multipart_put (fa : option N) (key : bytes) (len : N) (tok : bytes) (s : st) : res unit * st :=
   match mreq fa (RMpCreate key) same s with
   | (Ok _, s1) =>
@@ -396,17 +396,17 @@ Definition multipart_put (fa : option N) (key : bytes) (len : N) (tok : bytes) (
   | (_, s1) => (Err, s1)
   end.
 
-(** put_object_file, s3.rs:948-979 *)
+(** put_object_file, s3.rs:964-995 *)
 Definition put_object_file (fa : option N) (cprefix path : bytes) (len : N) (tok : bytes) (s : st) : res unit * st :=
   let key := join cprefix path in
   if K_S3_PART_SIZE <? len then multipart_put fa key len tok s
   else mreq fa (RPut key) (bk_put key tok) s.
 
-(** put_object_bytes, s3.rs:923-946 *)
+(** put_object_bytes, s3.rs:939-962 *)
 Definition put_object_bytes (fa : option N) (cprefix path tok : bytes) (s : st) : res unit * st :=
   let key := join cprefix path in mreq fa (RPut key) (bk_put key tok) s.
 
-(** delete_object, s3.rs:908-921 *)
+(** delete_object, s3.rs:924-937 *)
 Definition delete_object (fa : option N) (cprefix path : bytes) (s : st) : res unit * st :=
   let key := join cprefix path in mreq fa (RDelete key) (bk_remove key) s.
 
@@ -569,7 +569,7 @@ Definition init_st (bk : bucket) : st := mkSt bk 0 [].
 
 (* ------------------------------------------------------------------ C15: purge_object *)
 
-(** the loop of purge_object, s3.rs:606-617, over the keys list_objects returned: a failed
+(** the loop of purge_object, s3.rs:622-633, over the keys list_objects returned: a failed
     delete is logged and remembered, the loop goes on *)
 Fixpoint purge_loop (fa : option N) (cprefix : bytes) (files : list bytes) (failed : bool) (s : st) : bool * st :=
   match files with
@@ -580,10 +580,10 @@ Fixpoint purge_loop (fa : option N) (cprefix : bytes) (files : list bytes) (fail
               end
   end.
 
-(** S3OcflStore::purge_object, s3.rs:593-630, from the object root on (the lookup before it
-    reads only): everything the recursive listing [list_objects(object_root)] (s3.rs:606,
-    754-756: list_prefix without delimiter) returns is deleted *)
-Definition purge_object (fa : option N) (cprefix root : bytes) (s : st) : res unit * st :=
+(** the deletion part of S3OcflStore::purge_object, s3.rs:618-646: everything the recursive
+    listing [list_objects(object_root)] (s3.rs:622, 806-808: list_prefix without delimiter)
+    returns is deleted *)
+Definition purge_delete (fa : option N) (cprefix root : bytes) (s : st) : res unit * st :=
   match list_all (bk_keys (st_b s)) cprefix root false with
   | Ok (objs, _) =>
       let (failed, s') := purge_loop fa cprefix objs false s in
@@ -594,11 +594,11 @@ Definition purge_object (fa : option N) (cprefix root : bytes) (s : st) : res un
 
 (* ------------------------------------------------------------------ C15: the root of a new object *)
 
-(** S3OcflStore::validate_object_root, s3.rs:242-274 (/repo commit 1c63a11), called by
-    write_new_object (s3.rs:505) before the "existing files" test: [object_root.split('/')] =
+(** S3OcflStore::validate_object_root, s3.rs:242-274 (/repo commits 1c63a11, 900305c), called by
+    write_new_object (s3.rs:505) before the "existing files" test and by purge_object (s3.rs:605): [object_root.split('/')] =
     [segments]; an empty, "." or ".." part is refused; a first part `extensions` is refused; for
     every proper ancestor (the parts joined so far) the delimited listing must not show an
-    object declaration (is_object_dir, s3.rs:1452-1459) *)
+    object declaration (is_object_dir, s3.rs:1468-1475) *)
 Fixpoint validate_parts (keys : list bytes) (cprefix current : bytes) (first : bool) (parts : list bytes) : res unit :=
   match parts with
   | [] => Ok tt
@@ -619,3 +619,60 @@ Fixpoint validate_parts (keys : list bytes) (cprefix current : bytes) (first : b
   end.
 Definition s3_validate_object_root (keys : list bytes) (cprefix root : bytes) : res unit :=
   validate_parts keys cprefix [] true (segments root).
+
+(* ------------------------------------------------------------------ C15: purge_object with its guards *)
+
+(** util::trim_leading_slashes / trim_slashes, util.rs:75-82 *)
+Fixpoint trim_leading_slashes (s : bytes) : bytes :=
+  match s with
+  | c :: r => if is_slash c then trim_leading_slashes r else s
+  | [] => []
+  end.
+Definition trim_slashes (s : bytes) : bytes := trim_trailing_slashes (trim_leading_slashes s).
+
+Definition mutable_head_inventory_file : bytes := K_MUTABLE_HEAD_EXT_DIR ++ b "/head/inventory.json".   (* consts.rs:43 *)
+
+(** [self.parse_inventory(object_root)] reduced to the id it yields, s3.rs:191-238: the mutable
+    HEAD inventory if that key exists, else <root>/inventory.json; [inv_id] maps a stored
+    content to the id an inventory with that content names ([None]: it does not parse, which
+    makes parse_inventory an Err, i.e. not [Ok(Some(_))]) *)
+Definition stored_inventory_id (inv_id : bytes -> option bytes) (bk : bucket) (cprefix root : bytes) : option bytes :=
+  match bk_get (join cprefix (join root mutable_head_inventory_file)) bk with
+  | Some tok => inv_id tok
+  | None => match bk_get (join cprefix (join root K_INVENTORY_FILE)) bk with
+            | Some tok => inv_id tok
+            | None => None
+            end
+  end.
+
+(** S3OcflStore::purge_object, s3.rs:593-646 (/repo commit 900305c), from the looked-up root
+    [mapped] on (layout mapping / cache / scan read only; NotFound returns Ok before):
+    the root is trimmed (s3.rs:599) and validated (s3.rs:605); a root that is an object
+    directory whose inventory names ANOTHER id is left alone (s3.rs:607-612); a root that is no
+    object directory but has an object declaration somewhere below it is left alone
+    (s3.rs:613-616); otherwise everything below the root is deleted *)
+Definition purge_object (inv_id : bytes -> option bytes) (fa : option N) (cprefix oid mapped : bytes) (s : st)
+  : res unit * st :=
+  let root := trim_slashes mapped in
+  let keys := bk_keys (st_b s) in
+  match s3_validate_object_root keys cprefix root with
+  | Ok _ =>
+      match list_all keys cprefix root true with
+      | Ok (objs, _) =>
+          if is_object_dir objs then
+            match stored_inventory_id inv_id (st_b s) cprefix root with
+            | Some id' => if bytes_eqb id' oid then purge_delete fa cprefix root s else (Ok tt, s)
+            | None => purge_delete fa cprefix root s
+            end
+          else
+            match list_all keys cprefix root false with
+            | Ok (below, _) => if is_object_dir below then (Ok tt, s) else purge_delete fa cprefix root s
+            | Err => (Err, s)
+            | Panic => (Panic, s)
+            end
+      | Err => (Err, s)
+      | Panic => (Panic, s)
+      end
+  | Err => (Err, s)
+  | Panic => (Panic, s)
+  end.
